@@ -6,6 +6,7 @@ from typing import Any, Dict, List, Optional, Set, Tuple
 
 from hypothesis import strategies as st
 
+from vlib.responder import build_query as rp_build_query
 from vlib import sim, wire
 from vlib.core import Violation
 
@@ -15,7 +16,9 @@ RULE = ('One instance with 1-2 AsyncServiceBrowsers on disjoint types (delay 1/2
         'records through injected responses: TTL in {1 (floored), 1125, 1200, 2000, 4500, 7200, 36000}, learned in any order, '
         'refreshed, re-cased, withdrawn or left to expire; clock steps are absolute, relative to a live record\'s lifetime '
         '(75/85/95 % +- a few ms), relative to the scheduler\'s armed wake-up (just before/after), or - for refreshes with another TTL - '
-        'such that the new 75 % point lands within -1.2..+1.2 delays of a rung of the current schedule - in particular a shorter-lived '
+        'such that the new 75 % point lands within -1.2..+1.2 delays of a rung of the current schedule; in a third of the cases the instance '
+        'advertises an instance of the browsed type itself (pre-cached pointer, refreshed by its own answers) and hears another '
+        'host\'s QM question for that type just before the first (QU) query, or anywhere when the browser is forced to QU - in particular a shorter-lived '
         'record learned while the timer is armed for a longer-lived one. The run continues until every record has expired plus one '
         'delay. Oracle on the browser\'s query datagrams (independent decoder): start-up instants j, j+1, j+5, j+14 s with the recorded '
         'jitter j, first QU unless forced; afterwards distinct send instants >= delay apart; for every record lifetime an existential '
@@ -69,7 +72,16 @@ def scenario(draw) -> Dict[str, Any]:
                {'op': 'learn', 'type': 0, 'inst': 0, 'sp': 0, 'ttl': draw(st.sampled_from([4500, 7200, 36000]))},
                {'op': 'tick', 'ms': draw(st.sampled_from([1000, 40000, 600000]))},
                {'op': 'learn', 'type': 0, 'inst': 1, 'sp': 0, 'ttl': draw(st.sampled_from([1, 1200, 2000]))}] + ops
-    return {'jitter': draw(st.integers(0, 10**6)), 'browsers': browsers, 'ops': ops}
+    # the instance may itself advertise an instance of the first browsed type (it hears its own announcements and answers, so the
+    # browser starts with that pointer cached and keeps refreshing it); only then does it take note of other hosts' questions for
+    # that type: a QM question heard shortly before the browser's first (QU) query, and - for a browser forced to QU - at any point
+    # of the history. QU questions are never subject to duplicate-question suppression, so the schedule must be unaffected.
+    own = draw(st.sampled_from([False, False, True]))
+    peer_start = draw(st.sampled_from([None, -500, -1, 0, 10])) if own and browsers[0]['qtype'] != 'QM' else None   # first query is QU
+    if own and browsers[0]['qtype'] == 'QU':
+        for _ in range(draw(st.integers(0, 3))):
+            ops.insert(draw(st.integers(0, len(ops))), {'op': 'peer'})
+    return {'jitter': draw(st.integers(0, 10**6)), 'browsers': browsers, 'ops': ops, 'own': own, 'peer_start': peer_start}
 
 
 def strategy(tier: str):
@@ -101,7 +113,49 @@ class Exec:
         host = w.add_host('B')
         zc = host.zc
         await zc.async_wait_for_start()
+        t_own = self.case['browsers'][0]['type']
+        own_name = 'own.' + TYPES[t_own]
+        run = self
+
+        def peer_asks() -> None:
+            w.net.inject(host, rp_build_query([(TYPES[t_own], 12, False)], [], qid=0), PEER)
+            self.stats['peer_questions'] = self.stats.get('peer_questions', 0) + 1
+
+        ps = self.case.get('peer_start')
+        if self.case.get('own'):
+            from zeroconf import RecordUpdateListener
+
+            class Spy(RecordUpdateListener):
+                # the instance's own perception of its own pointer (announcements and answers heard back): each sighting is a refresh
+                def async_update_records(self, zc_: Any, now_ms: float, recs: List[Any]) -> None:
+                    for r in recs:
+                        n = r.new
+                        if n.type == 12 and n.ttl and n.name.lower() == TYPES[t_own].lower() and n.alias.lower() == own_name.lower():
+                            now = now_ms / 1000.0
+                            key = (t_own, 'own')
+                            old = run.live.get(key)
+                            if old is not None:
+                                if abs(old['c'] - now) < 1e-9:
+                                    continue
+                                old['u'] = now
+                            v = {'type': t_own, 'key': key, 'c': now, 'T': float(max(n.ttl, 1125)), 'u': None, 'sp': 0, 'recased': False}
+                            run.versions.append(v)
+                            run.live[key] = v
+
+                def async_update_records_complete(self) -> None:
+                    pass
+
+            zc.async_add_listener(Spy(), None)
+            task = await host.azc.async_register_service(sim.make_service_info(
+                {'type': TYPES[t_own], 'name': own_name, 'port': 1, 'server': 'b.local.', 'addrs': ['10.0.0.1'], 'props': ''}))
+            await task
+            await asyncio.sleep(2.0)
+        if ps is not None and ps <= 0:
+            peer_asks()
+            await asyncio.sleep(-ps / 1000.0)
         self.t_start = w.clock.t
+        if ps is not None and ps > 0:
+            w.loop.call_at(w.clock.t + ps / 1000.0, peer_asks)
         self.browsers = []
         for b in self.case['browsers']:
             qt = {None: None, 'QU': DNSQuestionType.QU, 'QM': DNSQuestionType.QM}[b['qtype']]
@@ -114,6 +168,9 @@ class Exec:
             kind = op['op']
             if kind == 'tick':
                 await asyncio.sleep(op['ms'] / 1000.0)
+            elif kind == 'peer':
+                if self.case.get('own') and self.case['browsers'][0]['qtype'] == 'QU':
+                    peer_asks()
             elif kind == 'to_fraction':
                 if self.live:
                     v = sorted(self.live.values(), key=lambda x: x['c'])[0]
@@ -171,7 +228,9 @@ class Exec:
 
 def check(case: Dict[str, Any]) -> Dict[str, Any]:
     ex = Exec(case)
-    with sim.World(jitter_seed=case['jitter']) as w:
+    # multicast loop-back to the sender takes 50 us here (a question heard back a full millisecond late would, by the 999 ms rule,
+    # suppress the sender's own next start-up query exactly 1000 ms later - an artefact of the simulated latency, not of the library)
+    with sim.World(jitter_seed=case['jitter'], delivery=sim.Delivery(fixed_ms=0.05)) as w:
         w.run(ex.main(w))
         trace = [e for e in w.net.trace if e['host'] == 'B']
         errors = list(w.errors)
@@ -188,8 +247,8 @@ def check(case: Dict[str, Any]) -> Dict[str, Any]:
         instants: List[Tuple[float, bool]] = []
         for e in trace:
             m = sim.decode_trace_entry(e)
-            if m is None or m['flags'] & 0x8000:
-                continue
+            if m is None or m['flags'] & 0x8000 or m['ns'] or e['t'] < t0:
+                continue          # responses, the instance's own registration probes, anything before the browsers exist
             qs = [q for q in m['qd'] if wire.name_text(q['name']).lower() == tname and q['type'] == 12]
             if qs:
                 if not instants or abs(instants[-1][0] - e['t']) > 1e-9:
@@ -222,7 +281,7 @@ def check(case: Dict[str, Any]) -> Dict[str, Any]:
         vs = [v for v in ex.versions if v['type'] == b['type']]
         for v in vs:
             c, T = v['c'], v['T']
-            end = min(c + T, v['u'] if v['u'] is not None else c + T)
+            end = min(c + T, v['u'] if v['u'] is not None else c + T, ex.t_end)     # nothing is required past the end of the run
             step = 0.1 * T
 
             def ok(s: float) -> bool:
@@ -256,6 +315,10 @@ def check(case: Dict[str, Any]) -> Dict[str, Any]:
             classes.append('recased-refresh')
         if any(v['u'] is not None for v in vs):
             classes.append('refreshed-or-withdrawn')
+    if case.get('own'):
+        classes.append('instance-advertises-the-browsed-type-itself')
+    if ex.stats.get('peer_questions'):
+        classes.append('peer-asked-the-same-question')
     if ex.stats.get('aligned_refresh'):
         nontrivial = True
         classes.append('refresh-with-75pct-point-near-the-scheduled-query')
